@@ -13,6 +13,8 @@ Predicates are case-split by the domain at the call (Domain.call returns a list 
 branch refinement for free.  Loops terminate through a visited set on (block, store) per activation; a
 budget bounds the exploration and exhausting it is reported as 'undecided' (fail closed), never as success.
 """
+import os
+import time as _time
 from .. import facts as F
 
 
@@ -44,19 +46,24 @@ UNIT = Const(())
 
 
 class Agg:
-    __slots__ = ("kind", "path", "vi", "vname", "fields")
+    __slots__ = ("kind", "path", "vi", "vname", "fields", "_h")
 
     def __init__(self, kind, path, vi, vname, fields):
         self.kind, self.path, self.vi, self.vname, self.fields = kind, path, vi, vname, tuple(fields)
+        self._h = None
 
     def _k(self):
         return (self.kind, self.path, self.vi, self.fields)
 
     def __eq__(self, o):
-        return isinstance(o, Agg) and o._k() == self._k()
+        return o is self or (isinstance(o, Agg) and hash(o) == hash(self) and o._k() == self._k())
 
     def __hash__(self):
-        return hash(self._k())
+        # values are immutable: the hash of a (possibly deep) value is computed once
+        h = self._h
+        if h is None:
+            h = self._h = hash(self._k())
+        return h
 
     def __repr__(self):
         nm = self.path or self.kind
@@ -224,7 +231,10 @@ class Domain:
 
 
 class Interp:
-    def __init__(self, facts, domain, budget=200000):
+    def __init__(self, facts, domain, budget=200000, wall=None):
+        import time as _t
+        # wall-clock limit of one interpreter (all its runs): exhausting it is 'undecided', like the step budget
+        self.deadline = _t.time() + float(wall if wall is not None else os.environ.get("VERIF_INTERP_WALL", "120"))
         self.facts = facts
         self.dom = domain
         self.budget = budget
@@ -509,6 +519,8 @@ class Interp:
             self.steps += 1
             if self.steps > self.budget:
                 raise Undecided("exploration budget exhausted in %s" % body.path)
+            if (self.steps & 63) == 0 and _time.time() > self.deadline:
+                raise Undecided("exploration time limit reached in %s" % body.path)
             b = body.blocks[bid]
             for s in b["stmts"]:
                 if s["k"] == "assign":
